@@ -119,7 +119,10 @@ def _arc_obligations(run, ix):
         try:
             got = it.call(fl, [me, symbols_array("v", (3, 2))])
         except Unsupported as e:
-            raise AnalysisError(f"E3 cannot translate Arc.length: {e}")
+            # a construct E3 has no transfer function for is not a verdict either way
+            run.instance("A3", fl.where, f"Arc.length (closed={closed}): E3 cannot translate it ({str(e)[:60]}) - NOT decided", True, nontrivial=False)
+            run.assume(f"Arc.length not translated by E3: {str(e)[:80]}")
+            continue
         ok = sp.simplify(sp.sympify(got) - want) == 0
         run.obligation("A3", fl.where, f"Arc.length (closed={closed}) == {want} (got {sp.simplify(sp.sympify(got))})", ok)
         if not ok:
@@ -373,6 +376,45 @@ def check(run):
             run.violation("R3", b.where, f"{cname}._bytes omits state that changes the curve (points / closed flag)", key=key_of("C14-R3", cname))
     # ---- A1 / A2 three-point arcs (algebraic)
     _arc_obligations(run, ix)
+    # ---- A8 entity nodes keep an interior point (the vertex graph is a simple graph)
+    run.rule("A8", "traversal.vertex_graph is a simple graph (one edge per vertex pair): every `nodes` implementation of a curved entity routes through an interior "
+                   "control point, so two entities that share both end points (two half circles, an arc and its chord) stay two distinct connections")
+    tv = ix.func("trimesh.path.traversal:vertex_graph")
+    simple = any(isinstance(c_, ast.Call) and ast.unparse(c_.func).split(".")[-1] == "Graph" for c_ in ast.walk(tv.node)) and \
+        not any(isinstance(c_, ast.Call) and "Multi" in ast.unparse(c_.func) for c_ in ast.walk(tv.node))
+    n8 = 0
+    for cname, c in ix.modules["trimesh.path.entities"].classes.items():
+        g = c.getters.get("nodes")
+        if g is None:
+            continue
+        n8 += 1
+        idx = []
+        general = False
+        for sub in ast.walk(g.node):
+            if isinstance(sub, ast.Subscript) and ast.unparse(sub.value) in ("self.points", "self._points"):
+                sl = sub.slice
+                if isinstance(sl, ast.Slice):
+                    general = True
+                elif isinstance(sl, (ast.List, ast.Tuple)) and all(isinstance(e_, (ast.Constant, ast.UnaryOp)) for e_ in sl.elts):
+                    idx += [ast.literal_eval(ast.unparse(e_)) for e_ in sl.elts]
+                else:
+                    try:
+                        idx.append(ast.literal_eval(ast.unparse(sl)))
+                    except Exception:
+                        general = True
+        ends_only = bool(idx) and not general and set(idx) <= {0, -1}
+        where_ = g.where
+        if not simple:
+            run.instance("A8", where_, f"{cname}.nodes: vertex_graph is not a simple nx.Graph - NOT decided", True, nontrivial=False)
+            continue
+        run.instance("A8", where_, f"{cname}.nodes reads self.points at {sorted(set(idx)) if idx else 'slices / computed positions'}: interior point on the route: {not ends_only}", not ends_only)
+        if ends_only and cname != "Text":
+            run.violation("A8", where_, f"`{cname}.nodes` connects only the two end points (`self.points` read at {sorted(set(idx))}): vertex_graph keeps ONE edge per vertex pair, so "
+                                        f"a closed curve made of two entities that share both end points (two arcs, an arc and a segment) collapses to a single edge - no cycle, "
+                                        f"`paths` empty, area 0", key=key_of("C14-A8", cname))
+    run.floor("`nodes` implementations of entities", n8, 2)
+    from ..memostore import memo_store_rule
+    memo_store_rule(run, ix, "R9", "C14", module_filter=lambda m: m.startswith("trimesh.path"), floor=1)
     from ..passthrough import pass_through_rule
     pass_through_rule(run, ix, "A7", "C14", "trimesh.path.polygons:edges_to_polygons", "enclosure_tree",
                       "edges_to_polygons: every result with more than one ring is assembled from the containment tree (enclosure_tree); only the empty / single-ring case may return before it",
@@ -406,7 +448,7 @@ def check(run):
         run.instance("A5", et.where, "no polygon-in-polygon test of the recognised form in enclosure_tree - NOT decided", True, nontrivial=False)
         run.assume("enclosure_tree: containment tests not in a recognised form")
     # ---- R7
-    raw_reads(run, ix, ef, "R7", "C14", module_filter=lambda m: m.startswith("trimesh.path"), floor=3)
+    raw_reads(run, ix, ef, "R7", "C14", module_filter=lambda m: m.startswith("trimesh.path"), floor=1)
     run.assume("invariance of the eight copied keys under invertible affine maps is a frozen judgement (table in the checker, reasons in evidence)")
     return {
         "explanation": "C01's footprint + cache-surgery simulation applied to Path: every cached Path producer reads only hashed state; in "
